@@ -97,6 +97,7 @@ func (ap *accountPool) AddAccountBlockTransaction(insertLocker sync.Locker, tran
 	}
 	ap.changes.Lock()
 	defer ap.changes.Unlock()
+	defer verifBlockAdded(ap, transaction, false)()
 	return ap.addAccountBlockTransaction(transaction, false)
 }
 func (ap *accountPool) ForceAddAccountBlockTransaction(insertLocker sync.Locker, transaction *nom.AccountBlockTransaction) error {
@@ -105,6 +106,7 @@ func (ap *accountPool) ForceAddAccountBlockTransaction(insertLocker sync.Locker,
 	}
 	ap.changes.Lock()
 	defer ap.changes.Unlock()
+	defer verifBlockAdded(ap, transaction, true)()
 	return ap.addAccountBlockTransaction(transaction, true)
 }
 func (ap *accountPool) addAccountBlockTransaction(transaction *nom.AccountBlockTransaction, forceAdd bool) error {
